@@ -209,8 +209,13 @@ func (c *c16) checkExtOrder(sm *setModel, calls []Call, op string) {
 				}
 				base = strings.TrimSuffix(cl.Path, c.exts[0])
 			} else if cl.Path != base+c.exts[i] {
-				c.env.Violate("extension-order", c.mode(sm)+":ext-order", "%s: candidate %d of %q is %s, expected %s (extensions %q)\ncalls: %v", op, i, base, cl.Path, base+c.exts[i], c.exts, calls)
-				return
+				// the scan of the previous name may have ended with a candidate found in the cache (no
+				// loader call): then this is the first candidate of the next name
+				if !strings.HasSuffix(cl.Path, c.exts[0]) || sm.dev {
+					c.env.Violate("extension-order", c.mode(sm)+":ext-order", "%s: candidate %d of %q is %s, expected %s (extensions %q)\ncalls: %v", op, i, base, cl.Path, base+c.exts[i], c.exts, calls)
+					return
+				}
+				i, base = 0, strings.TrimSuffix(cl.Path, c.exts[0])
 			}
 			if cl.Result == "true" {
 				if k+1 >= len(calls) || calls[k+1].Seam != "Open" || calls[k+1].Path != cl.Path {
@@ -278,6 +283,7 @@ func (c *c16) opGet(sm *setModel, name string, exec bool) {
 	t0, c0 := len(c.loader.Trace), len(c.ctrace)
 	hardBefore := c.loader.Fired[FaultOpenError] + c.loader.Fired[FaultReadError] + c.loader.Fired[FaultGarbage] + c.loader.Fired[FaultPanic]
 	panicsBefore := c.loader.Fired[FaultPanic]
+	allFiredBefore := sumFired(c.loader)
 	var t *jet.Template
 	var err error
 	pc := sim.Guard(func() { t, err = sm.set.GetTemplate(name) })
@@ -380,6 +386,40 @@ func (c *c16) opGet(sm *setModel, name string, exec bool) {
 			}
 		}
 		return
+	}
+	// "the first existing file wins": the template returned for a name is never the one of a LATER
+	// candidate while an earlier candidate exists in the loader (however the later one got into the
+	// cache - e.g. because it was asked for under its full name before). A remembered answer for this
+	// very name is exempt (prev != nil: identical-hit applies), and so are operations hit by a fault.
+	// Judged when it is known where the answer came from: loaded just now, or (traced cache) found in
+	// the cache under a key other than the requested name. An entry under the requested name itself is
+	// a remembered answer for that name (an extends or include may have asked for it before).
+	provenanceKnown := false
+	for _, cl := range calls {
+		if cl.Seam == "Open" && cl.Result == "ok" && t != nil && cl.Path == t.Name {
+			provenanceKnown = true
+		}
+	}
+	if !provenanceKnown && sm.simCache != nil {
+		for _, cc := range ccalls {
+			if cc.Seam == "Cache.Get" && cc.Result == "hit" {
+				provenanceKnown = cc.Path != name
+				break
+			}
+		}
+	}
+	if provenanceKnown && sm.succ[name] == nil && sumFired(c.loader) == allFiredBefore && !sm.lossy {
+		for i, e := range c.exts {
+			if t.Name != name+e {
+				continue
+			}
+			for _, e2 := range c.exts[:i] {
+				if c.files[name+e2] != nil {
+					c.env.Violate("extension-order", c.mode(sm)+":later-extension-wins", "%s returned the template of %s although the earlier candidate %s exists in the loader (loader calls of this lookup: %v)\nhistory: %s", op, t.Name, name+e2, calls, strings.Join(c.hist, " "))
+				}
+			}
+			break
+		}
 	}
 	sm.failed[name] = false
 	if !sm.dev {
